@@ -141,10 +141,8 @@ func (o *ObjectSchema) unserializeInlinedDataToMap(data any) (map[string]any, er
 	for fieldName, property := range o.Properties() {
 		unserializedProperty, err := property.Unserialize(data)
 		if err != nil {
-			return nil,
-				fmt.Errorf("error while unserializing single inlined property %s for object %s (%q);"+
-					"fix the property or specify the object as a map",
-					fieldName, o.ID(), err)
+			// Keep the property's own error (and its path) so that the offending field can be located.
+			return nil, ConstraintErrorAddPathSegment(err, fieldName)
 		}
 		return map[string]any{
 			fieldName: unserializedProperty,
